@@ -1,5 +1,5 @@
 (* C09 model driver: same line protocol as harness/c09_harness.cpp, answers computed by the extracted Coq model.
-   usage: c09 <variant bits>   bit0 fix_incr, bit1 fix_empty, bit2 fix_reset, bit3 fix_init
+   usage: c09 <variant bits>   bit0 fix_incr, bit1 fix_empty, bit2 fix_reset, bit3 fix_init, bit4 fix_qpad
    A history whose state stops being window-sound (only possible with fix_incr = 0) answers `U` from then on. *)
 open Zconv
 module M = Jitmodel
@@ -43,9 +43,9 @@ let spec_mode () =
 
 let () =
   if Array.length Sys.argv > 1 && Sys.argv.(1) = "spec" then spec_mode () else
-  let vbits = if Array.length Sys.argv > 1 then int_of_string Sys.argv.(1) else 15 in
+  let vbits = if Array.length Sys.argv > 1 then int_of_string Sys.argv.(1) else 31 in
   let variant = { M.fix_incr = vbits land 1 <> 0; fix_empty = vbits land 2 <> 0; fix_reset = vbits land 4 <> 0;
-                  fix_init = vbits land 8 <> 0 } in
+                  fix_init = vbits land 8 <> 0; fix_qpad = vbits land 16 <> 0 } in
   let fill = ref false in
   let cfg = ref None and st = ref None and cur = ref [] and handles = ref [||] and nh = ref 0 and unsound = ref false in
   let check_ws = not variant.M.fix_incr in
@@ -77,14 +77,28 @@ let () =
       | t :: _ when String.length t > 0 && t.[0] = '#' -> ()
       | "H" :: g :: bs :: opt :: _ ->
         let g = int_of_string g and bs = int_of_string bs and opt = int_of_string opt in
-        let g' = if g < 64 || g > 256 || g land (g - 1) <> 0 then 64 else g in
-        let bs' = if bs < 65536 || bs > 268435456 || bs land (bs - 1) <> 0 then 65536 else bs in
-        let pools = if opt land 2 <> 0 then 3 else 1 in
+        (* JitAllocator_new_impl normalisation: the model's functions (page granularity of the host: 64 KiB) *)
+        let g' = iz (M.norm_gran (zi g)) in
+        let bs' = iz (M.norm_bsize (zi 65536) (zi bs)) in
+        let pools = iz (M.norm_pools (opt land 2 <> 0)) in
         let c = { M.c_gran = zi g'; c_pools = zi pools; c_bsize = zi bs'; c_pad = (opt land 0x10 = 0);
                   c_imm = (opt land 8 <> 0); c_var = variant } in
         fill := (opt land 4 <> 0);
         cfg := Some c; st := Some (M.init_state c); cur := (M.init_cstate c).M.cs_cur; handles := [||]; nh := 0; unsound := false;
         Printf.printf "H %d %d %d %d\n" (if M.is_initialized c then 1 else 0) pools g' bs'
+      (* rows of the translated tables, answered by the model (to name the concrete row when tables_ok fails) *)
+      | "TK" :: _ -> Printf.printf "TK %d %d %d\n" (iz (M.norm_pools true)) (iz (M.norm_gran (zi 0))) (iz M.max_block_size)
+      | "TC" :: g :: bs :: multi :: _ ->
+        Printf.printf "TC %d %d %d\n" (iz (M.norm_gran (cz_of_string g))) (iz (M.norm_bsize (zi 65536) (cz_of_string bs))) (iz (M.norm_pools (multi <> "0")))
+      | "TP" :: g :: pools :: size :: _ ->
+        let c = { M.c_gran = cz_of_string g; c_pools = cz_of_string pools; c_bsize = zi 65536; c_pad = true; c_imm = false; c_var = M.fixed } in
+        Printf.printf "TP %d\n" (iz (M.size_to_pool c (cz_of_string size)))
+      | "TI" :: g :: pools :: bs :: pad :: p :: last :: size :: _ ->
+        let c = { M.c_gran = cz_of_string g; c_pools = cz_of_string pools; c_bsize = cz_of_string bs; c_pad = (pad <> "0"); c_imm = false; c_var = M.fixed } in
+        let lastb = if last = "0" then None else
+            Some { M.b_id = zi 0; b_pool = cz_of_string p; b_bytes = cz_of_string last; b_area = zi 0; b_pad = zi 0; b_used = zi 0; b_stop = zi 0;
+                   b_aused = zi 0; b_largest = zi 0; b_ss = zi 0; b_se = zi 0; b_empty = false; b_dirty = false; b_incr = false; b_live = [] } in
+        Printf.printf "TI %d\n" (iz (M.ideal_block_size c (cz_of_string p) lastb (cz_of_string size)))
       | "I" :: b :: hint :: start :: end_ :: _n :: words ->
         (* C18's model of BitVectorRangeIterator<uint64_t, b>: all ranges *)
         let rs = M.ranges (zi 64) (b <> "0") (List.map cz_of_string words) (cz_of_string start) (cz_of_string end_) (cz_of_string hint) in
